@@ -303,3 +303,37 @@ def shares_memory(a, b):
     if isinstance(a, np.ndarray) and isinstance(b, np.ndarray):
         return bool(np.shares_memory(a, b))
     return False
+
+
+# ---- transcendental functions: uninterpreted symbols (symbolic world) / numpy (concrete world)
+
+def _ufun_app(name, *args):
+    from .values import ufun
+    if any(isinstance(_r(x), Sym) for x in args):
+        return mk(ufun(name, len(args))(*[term_of(_r(x), "float") for x in args]), "float")
+    with np.errstate(all="ignore"):
+        return float(getattr(np, name)(*[float(_r(x)) for x in args]))
+
+
+def hypot(a, b):
+    return _ufun_app("hypot", a, b)
+
+
+def arctan2(a, b):
+    return _ufun_app("arctan2", a, b)
+
+
+def cos(a):
+    return _ufun_app("cos", a)
+
+
+def mod_2pi(a):
+    """a % (2*pi) exactly as Python/numpy compute it on floats (symbolic: a - 2pi*floor(a/2pi))"""
+    a = _r(a)
+    tp = 2 * math.pi
+    if isinstance(a, Sym):
+        return _r(binop("%", a, tp, spec=True))
+    return float(np.float64(a) % tp)
+
+
+__all__ += ["hypot", "arctan2", "cos", "mod_2pi"]
